@@ -78,7 +78,11 @@ func H_C17_units() {
 // int and uint values to themselves.
 func H_C17_plain() {
 	setMerge(true)
-	n := concretize(nondetInt("ndigits"), 1, 4)
+	maxDigits := 4
+	if tierThorough() {
+		maxDigits = 7
+	}
+	n := concretize(nondetInt("ndigits"), 1, maxDigits)
 	s := nondetStr("digits", n)
 	want := 0
 	for i := 0; i < n; i++ {
